@@ -103,14 +103,14 @@ class C08(PropBase):
     extractors = ["nl", "dispatch", "trans"]
     rule = ("histories of 2-7 airborne-position squitters (TC 9-18, DF17) of one aircraft among others: true positions stratified over "
             "every NL transition latitude +-1e-6..3e-2 deg, even/odd latitude-zone edges, equator, +-86.9/86.9999, antimeridian, Greenwich, "
-            "longitude-zone edges, uniform; both hemispheres; either parity first; displacement 0-3 km between frames; delays 0, 2, 9.5, "
-            "9.9, 10.1, 10.5, 3600 s; identification / velocity / DF4 / DF11 / DF20 frames and surface frames (TC 5-8) and frames with a CPR field of exactly 0 (same or other parity) interleaved; -U on/off; "
+            "longitude-zone edges, uniform; both hemispheres; either parity first; displacement 0-3 km between frames; delays 0, 2, 9.4, "
+            "9.5, 10.5, 10.6, 3600 s; identification / velocity / DF4 / DF11 / DF20 frames and surface frames (TC 5-8) and frames with a CPR field of exactly 0 (same or other parity) interleaved; -U on/off; "
             "observers None and six 'lat,lon' strings with blanks; pairs with identical raw CPR fields sent back to back by two aircraft as surface/airborne, airborne/surface/airborne and airborne/airborne. After every frame the row is compared with a reference that knows "
             "only the true positions, receive times and the rule of the property (encoded-zone equality computed exactly): shown position "
             "within 20 m of the newer frame's true position, in range, distance = haversine(R=6371) of the shown position, or exactly as "
             "before; and with the Lean model line (1e-9 deg). Non-trivial = a history with at least one committed decode and one "
             "refusal; distinct by (NL zone, parity order, refusal reason).")
-    assumptions = ["chrono wall clock simulated by shifting the public time stamps (margins >= 0.1 s around the 10 s limit)",
+    assumptions = ["chrono wall clock simulated by shifting the public time stamps (margins >= 0.4 s around the 10 s limit; an alarm must be raised by two identical passes)",
                    "IEEE-754 evaluation of cpr_location/haversine is compared numerically (1e-9 deg / 2e-6 km), not proved (DESIGN 5.8)"]
 
     def explore(self, rep, run, rng, tier, driver_ok):
@@ -178,7 +178,7 @@ class C08(PropBase):
                     verdict = ref.frame(t, odd, la, lo, yz, xz, kind == "surface")
                     ops += [f"case {cc}.{i}"] + gen.seg(lines) + ["dump"]
                     steps.append((i, verdict, float(la), float(lo), t, kind, tc, u))
-                    gap = rng.choice([0, 2000, 2000, 9500, 9900, 10100, 10500, 3600000])
+                    gap = rng.choice([0, 2000, 2000, 9400, 9500, 10500, 10600, 3600000])     # >= 0.4 s of margin to the 10 s window
                     ops.append(f"adv {gap}")
                     t += gap
                 plan.append((cc, addr, steps, cur_obs, F.nl(encoded_rlat(lat, 0))))
